@@ -94,6 +94,23 @@ def assumptions_audit(spec):
     return ok, out, nthm, sum(o["closed"] for o in out) + sum(1 for o in out for _ in o["axioms"])
 
 
+def coqchk_audit(spec):
+    """thorough tier: re-check the compiled property files and everything they depend on with the independent
+    checker, and read its report on axioms / type-in-type / unsafe fixpoints / assumed positivity"""
+    mods = ["CV." + f[:-2].replace("/", ".") for f in spec.coq_files]
+    p = subprocess.run(["timeout", "1500", "coqchk", "-silent", "-o", "-R", COQ, "CV"] + mods,
+                       capture_output=True, text=True, cwd=COQ)
+    text = p.stdout + p.stderr
+    if p.returncode != 0:
+        return False, "coqchk failed: " + text.strip()[-300:]
+    wanted = ["Axioms: <none>", "relying on type-in-type: <none>", "relying on unsafe (co)fixpoints: <none>",
+              "positivity is assumed: <none>"]
+    missing = [w for w in wanted if w not in text]
+    if missing:
+        return False, "coqchk reports: " + " | ".join(l.strip() for l in text.splitlines() if l.strip().startswith("*"))[:600]
+    return True, "coqchk -o on " + " ".join(mods) + ": Axioms <none>; type-in-type <none>; unsafe fixpoints <none>; assumed positivity <none>"
+
+
 def load_known_findings(pid):
     path = os.path.join(VERIF, "known-findings.txt")
     out = []
@@ -122,6 +139,7 @@ def main():
 
     violations = []      # (replay_path, text, no_failing_input)
     notes = []
+    coqchk_note = None
     proof_ok = True
     corr_ok = True
 
@@ -143,6 +161,12 @@ def main():
             if not aok:
                 proof_ok = False
                 notes.append("assumption audit failed: " + json.dumps(audit))
+            if a.tier == "thorough" and not a.replay:
+                cok, cmsg = coqchk_audit(spec)
+                coqchk_note = cmsg
+                if not cok:
+                    proof_ok = False
+                    notes.append("coqchk: " + cmsg)
         else:
             audit, nthm, ndis = [], 0, 0
         # ---- 2. harness --------------------------------------------------
@@ -206,7 +230,7 @@ def main():
             "obligations": max(nthm, 1) if proof_ok else max(nthm, 1),
             "discharged": nthm if proof_ok else 0,
             "checker_cmd": f"make -C coq {' '.join(f[:-2] + '.vo' for f in spec.coq_files)} (coqc 8.16.1, full .vo) + Print Assumptions audit",
-            "trusted_base": spec.trusted_base(audit),
+            "trusted_base": spec.trusted_base(audit) + ([coqchk_note] if coqchk_note else []),
             "theorems": spec.theorems,
             "assumption_audit": audit,
             "evaluations": len(result.get("cases", [])),
